@@ -109,6 +109,17 @@ def search(payload):
             if bad is not None:
                 fails.append({"p": repr(p), "p_structure": skey(p), "position": bad, "value": repr(vals[bad])[:200], "p(value)": repr(call(p, vals[bad])), "seed": seed})
                 break
+    # HISTORY (gencommon.history_block): requests on TEMPORARY predicates one after the other, judged by fresh copies; the caller mutates the
+    # containers it was handed and asks again; set-of over element kinds whose counter-examples cannot be hashed
+    from predicate.standard_predicates import is_truthy_p as _truthy10, is_falsy_p as _falsy10
+    hm = []
+    for b in range(5000, -5001, -1000):
+        hm += [(f"is_set_of_p(ge_p({b}))", lambda b=b: _setof(ge_p(b))), (f"all_p(ge_p({b}))", lambda b=b: _all0(ge_p(b)))]
+    hm += [("is_empty_p", lambda: PP.is_empty_p), ("is_truthy_p", lambda: _truthy10), ("all_p(is_empty_p)", lambda: _all0(PP.is_empty_p)), ("is_set_of_p(is_int_p)", lambda: _setof(is_int_p)),
+           ("is_set_of_p(is_set_of_p(is_int_p))", lambda: _setof(_setof(is_int_p))), ("is_set_of_p(is_empty_p)", lambda: _setof(PP.is_empty_p)), ("all_p(is_truthy_p)", lambda: _all0(_truthy10))]
+    hn, hfails = g.history_block("false", GENF, hm, seed=int(payload["seed"]))
+    n += hn
+    fails += hfails
     # quantifiers nested 8 deep: slow (seconds per value), so only the first value of one stream each is read
     from predicate.standard_predicates import all_p as _all, any_p as _any
     for outer, leaf in ((_all, is_int_p), (_all, ge_p(3)), (_any, is_str_p)):
